@@ -332,4 +332,179 @@ theorem api_of_miss (fuel : Nat) (t : Val) (xp : Str) (hq : startsWith xp ['?'] 
   · rw [XPath.get, h]; rfl
   · rw [h]; rfl
 
+/-! ### index out of range: what `_find` reports, and `delete` -/
+
+/-- what `_find` answers for an index that is out of range on an existing list -/
+def OutAt (root : Val) (r : Res) : Prop :=
+  ∃ q cls xs i, r.parent = .at q ∧ getAt root q = some (.list cls xs) ∧ r.nameIdx = some (bracket (intStr i)) ∧
+    OutOfRange i xs.length ∧ r.isFound = false
+
+/-- `find_miss_sp` with the place of the miss: the parent reported is the list, the name is the bracketed index -/
+theorem find_miss_out (root : Val) (rl : Bool) {toks : List Str} {v : Val} (h : MissAt toks v) :
+    ∀ (fuel : Nat) (q : Pos) (found : Str) (entry : Bool), getAt root q = some v → fuel ≥ 2 * toks.length →
+      ∃ r, findD fuel root [] false entry toks (.at q) rl found = .ok (root, r) ∧ OutAt root r := by
+  induction h with
+  | @idx tok e i rest cls xs hk ho =>
+    intro fuel q found entry hq hf
+    obtain ⟨f, rfl⟩ : ∃ f, fuel = f + 1 := ⟨fuel - 1, by simp at hf; omega⟩
+    rw [find_idx_miss_sp f root [] entry rl q found tok e i rest cls xs hq hk ho]
+    exact ⟨_, rfl, q, cls, xs, i, rfl, hq, rfl, ho, isFound_notFound_cons _ _ _ rfl⟩
+  | @keyIdx tok k e i rest cls kvs cls' xs hk hl ho =>
+    intro fuel q found entry hq hf
+    obtain ⟨f, rfl⟩ : ∃ f, fuel = f + 2 := ⟨fuel - 2, by simp at hf; omega⟩
+    rw [find_keyidx_step_sp (f + 1) root [] entry rl q found tok k e i rest cls kvs _ hq hk hl]
+    have hq1 : getAt root (q ++ [Seg.key k]) = some (.list cls' xs) := by
+      rw [getAt_snoc, hq]; simp [child, hl]
+    rw [find_idx_miss_sp f root [] false rl (q ++ [Seg.key k]) _ (bracket e) e i rest cls' xs hq1 hk.inner ho]
+    exact ⟨_, rfl, _, cls', xs, i, rfl, hq1, rfl, ho, isFound_notFound_cons _ _ _ rfl⟩
+  | @stepKey tok rest cls kvs c hk hl hm ih =>
+    intro fuel q found entry hq hf
+    obtain ⟨f, rfl⟩ : ∃ f, fuel = f + 1 := ⟨fuel - 1, by simp at hf; omega⟩
+    rw [find_key_step_sp f root [] entry rl q found tok rest cls kvs c hm.ne_nil hq hk hl]
+    have hq' : getAt root (q ++ [.key tok]) = some c := by
+      rw [getAt_snoc, hq]; simp [child, hl]
+    exact ih f _ _ false hq' (by simp at hf ⊢; omega)
+  | @stepIdx tok e i rest cls xs n c hk hn hx hm ih =>
+    intro fuel q found entry hq hf
+    obtain ⟨f, rfl⟩ : ∃ f, fuel = f + 1 := ⟨fuel - 1, by simp at hf; omega⟩
+    rw [find_idx_step_sp f root [] entry rl q found tok e i rest hm.ne_nil cls xs n hq hk hn]
+    have hq' : getAt root (q ++ [.idx n]) = some c := by
+      rw [getAt_snoc, hq]; simp [child, hx]
+    exact ih f _ _ false hq' (by simp at hf ⊢; omega)
+  | @stepKeyIdx tok k e i rest cls kvs cls' xs n c hk hl hn hx hm ih =>
+    intro fuel q found entry hq hf
+    obtain ⟨f, rfl⟩ : ∃ f, fuel = f + 2 := ⟨fuel - 2, by simp at hf; omega⟩
+    rw [find_keyidx_step_sp (f + 1) root [] entry rl q found tok k e i rest cls kvs _ hq hk hl]
+    have hq1 : getAt root (q ++ [Seg.key k]) = some (.list cls' xs) := by
+      rw [getAt_snoc, hq]; simp [child, hl]
+    rw [find_idx_step_sp f root [] false rl (q ++ [Seg.key k]) _ (bracket e) e i rest hm.ne_nil cls' xs n hq1 hk.inner hn]
+    have hq' : getAt root (q ++ [Seg.key k] ++ [Seg.idx n]) = some c := by
+      rw [getAt_snoc, hq1]; simp [child, hx]
+    exact ih f _ _ false hq' (by simp at hf ⊢; omega)
+
+theorem normIdx_none_of_outOfRange {i : Int} {len : Nat} (h : OutOfRange i len) : normIdx i len = Option.none := by
+  cases hn : normIdx i len with
+  | none => rfl
+  | some n => exact absurd h (normIdx_range hn)
+
+/-- **index out of range.**  `delete` of a path whose steps walk along existing nodes and then index a list out of range
+(`stepsMiss`, the misses of `C01_out_of_range_miss`) raises IndexError - `del parent_node[i]` on the list - and changes
+nothing, with and without `recursively`. -/
+theorem delete_out_of_range (fuel : Nat) (cls : Cls) (kvs : List (Str × Val)) (lead : Lead) (steps : List StepSp)
+    (rec : Bool) (hp : PlainSteps steps) (hmiss : stepsMiss (.dict cls kvs) steps = true)
+    (hf : fuel ≥ 2 * steps.length) :
+    delete fuel (.dict cls kvs) (renderSp lead steps) rec = (.dict cls kvs, .error .IndexError) := by
+  have hm := missAt_steps steps _ hp hmiss
+  have htok := tokenize_renderSp lead steps hp
+  have hlen := toksOf_length_le steps
+  have hne : steps ≠ [] := by rintro rfl; rw [stepsMiss_nil] at hmiss; cases hmiss
+  have hq := renderSp_noQ lead steps hp hne
+  obtain ⟨r, hr, q, lc, xs, i, hpar, hgq, hni, ho, hnf⟩ :=
+    find_miss_out (.dict cls kvs) true hm fuel [] slash true rfl (by omega)
+  obtain ⟨n, hn⟩ : ∃ n, (tokenize (renderSp lead steps)).length = n + 1 :=
+    ⟨(tokenize (renderSp lead steps)).length - 1, by
+      have : (tokenize (renderSp lead steps)).length ≠ 0 := by
+        intro h; rw [htok] at h; exact hm.ne_nil (List.length_eq_zero_iff.mp h)
+      omega⟩
+  unfold delete deleteTokens
+  simp only [stripQ_noQ _ hq, hn]
+  rw [deleteLoop]
+  have htake : (tokenize (renderSp lead steps)).take (n + 1) = tokenize (renderSp lead steps) := by
+    rw [← hn]; exact List.take_length
+  rw [htake, htok, hr]
+  simp only [delPlace, hpar, isWrap, Bool.false_and, Bool.false_eq_true, if_false, Bool.true_or, if_true,
+    delThrough, hni, valOf_at, hgq, startsWith_bracket, endsWith_bracket, Bool.and_self, Bool.not_true,
+    bracket_inner, n0eval_intStr, normIdx_none_of_outOfRange ho]
+
+/-! ### the canonical path of `xpath()` is a member of the family -/
+
+/-- the steps of the canonical path of a position: keys, literal indexes attached to what precedes them -/
+def canonSteps : Pos → List StepSp
+  | [] => []
+  | .key k :: p => .key k :: canonSteps p
+  | .idx n :: p => .idx (.lit n) false :: canonSteps p
+
+theorem canonSteps_length (p : Pos) : (canonSteps p).length = p.length := by
+  induction p with
+  | nil => rfl
+  | cons s p ih => cases s <;> simp [canonSteps, ih]
+
+theorem canonSteps_append (p q : Pos) : canonSteps (p ++ q) = canonSteps p ++ canonSteps q := by
+  induction p with
+  | nil => rfl
+  | cons s p ih => cases s <;> simp [canonSteps, ih]
+
+theorem renderSteps_canon (p : Pos) : renderSteps (canonSteps p) = renderPos p := by
+  induction p with
+  | nil => rfl
+  | cons s p ih =>
+    cases s with
+    | key k => simp only [canonSteps, renderSteps_cons, ih, renderStep]; simp [renderPos, renderSeg]
+    | idx n => simp only [canonSteps, renderSteps_cons, ih, renderStep, IdxSp.text]; simp [renderPos, renderSeg]
+
+/-- `//a/b[0]/c`: the path `xpath()` enumerates is the spelling `renderSp .two` of the canonical steps -/
+theorem renderSp_canon (k : Str) (p : Pos) :
+    renderSp .two (canonSteps (.key k :: p)) = slash ++ renderPos (.key k :: p) := by
+  unfold renderSp
+  rw [renderSteps_canon]
+  simp [renderPos, renderSeg, dropSlash, leadStr, slash]
+
+theorem plainSteps_canon : ∀ p : Pos, PlainPos p → PlainSteps (canonSteps p)
+  | [], _ => trivial
+  | .key _ :: p, h => ⟨h.1, plainSteps_canon p h.2⟩
+  | .idx _ :: p, h => plainSteps_canon p h
+
+theorem stepsGet_canon : ∀ (p : Pos) (t c : Val), getAt t p = some c → stepsGet t (canonSteps p) = some c
+  | [], t, c, h => by simpa [getAt, canonSteps, stepsGet] using h
+  | .key k :: p, t, c, h => by
+    cases t with
+    | dict cls kvs =>
+      simp only [getAt, child] at h
+      cases hl : lookup k kvs with
+      | none => simp [hl] at h
+      | some x =>
+        simp only [hl, Option.bind] at h
+        simp only [canonSteps, stepsGet, hl, Option.bind]
+        exact stepsGet_canon p x c h
+    | _ => simp [getAt, child] at h
+  | .idx n :: p, t, c, h => by
+    cases t with
+    | list cls xs =>
+      simp only [getAt, child] at h
+      cases hx : xs[n]? with
+      | none => simp [hx] at h
+      | some x =>
+        simp only [hx, Option.bind] at h
+        have hlt : n < xs.length := by
+          rcases Nat.lt_or_ge n xs.length with h' | h'
+          · exact h'
+          · rw [List.getElem?_eq_none h'] at hx; cases hx
+        simp only [canonSteps, stepsGet, pyIndex, IdxSp.val, normIdx_nat hlt, Option.bind, hx]
+        exact stepsGet_canon p x c h
+    | _ => simp [getAt, child] at h
+
+/-- below a dict root every non-empty position of an existing node starts with a key -/
+theorem pos_head_key {cls : Cls} {kvs : List (Str × Val)} {p : Pos} {c : Val}
+    (h : getAt (.dict cls kvs) p = some c) (hne : p ≠ []) : ∃ k r, p = .key k :: r := by
+  cases p with
+  | nil => exact absurd rfl hne
+  | cons s r =>
+    cases s with
+    | key k => exact ⟨k, r, rfl⟩
+    | idx n => simp [getAt, child] at h
+
+/-- the canonical path of the node at `p` followed by the name step `k` -/
+theorem canon_path (cls : Cls) (kvs : List (Str × Val)) (p : Pos) (c : Val) (k : Str)
+    (h : getAt (.dict cls kvs) p = some c) :
+    renderSp .two (canonSteps p ++ .key k :: []) = slash ++ renderPos p ++ '/' :: k := by
+  have h2 : ∃ k' r, p ++ [.key k] = .key k' :: r := by
+    by_cases hne : p = []
+    · subst hne; exact ⟨k, [], rfl⟩
+    · obtain ⟨k', r, rfl⟩ := pos_head_key h hne
+      exact ⟨k', r ++ [.key k], rfl⟩
+  obtain ⟨k', r, he⟩ := h2
+  have : canonSteps p ++ [.key k] = canonSteps (p ++ [.key k]) := by rw [canonSteps_append]; rfl
+  rw [this, he, renderSp_canon, ← he]
+  simp [renderPos, renderSeg]
+
 end N0.XPath
